@@ -204,10 +204,25 @@ def _texpr(n, env):
         e, t = _texpr(n.operand, env)
         need(t == 'bool', 'kernel: not on %s' % t)
         return ('(negb %s)' % e, 'bool')
+    if isinstance(n, ast.List):
+        parts = [_texpr(e, env) for e in n.elts]
+        need(len({t for _, t in parts}) <= 1 and all(t in ('string', 'Z') for _, t in parts), 'kernel: list literal %s' % key[:80])
+        ty = parts[0][1] if parts else 'string'
+        return ('[' + '; '.join(e for e, _ in parts) + ']', 'list ' + ty)
+    if isinstance(n, ast.BinOp) and isinstance(n.op, ast.Mod) and isinstance(n.left, ast.Constant) and isinstance(n.left.value, str):
+        # 'text %d text' % <integer>: the decimal rendering of the integer between the two pieces of text
+        fmt = n.left.value
+        need(fmt.count('%') == 1 and fmt.count('%d') == 1, 'kernel: format string %r' % fmt)
+        z, tz = _texpr(n.right, env)
+        need(tz == 'Z', 'kernel: %%d of a %s' % tz)
+        pre, post = fmt.split('%d')
+        return ('(String.append %s (String.append (z_to_string %s) %s))' % (cstr(pre), z, cstr(post)), 'string')
     if isinstance(n, ast.BinOp):
         (a, ta), (b, tb) = _texpr(n.left, env), _texpr(n.right, env)
         if isinstance(n.op, ast.Add) and ta == tb == 'string':
             return ('(%s ++ %s)%%string' % (a, b), 'string')
+        if isinstance(n.op, ast.Add) and ta == tb and ta.startswith('list '):
+            return ('(%s ++ %s)%%list' % (a, b), ta)
         ops = {ast.Add: '(%s + %s)', ast.Sub: '(%s - %s)', ast.Mult: '(%s * %s)', ast.FloorDiv: '(%s / %s)', ast.Mod: '(%s mod %s)',
                ast.RShift: '(Z.shiftr %s %s)', ast.LShift: '(Z.shiftl %s %s)', ast.BitAnd: '(Z.land %s %s)', ast.BitOr: '(Z.lor %s %s)', ast.BitXor: '(Z.lxor %s %s)'}
         need(type(n.op) in ops and ta == tb == 'Z', 'kernel: operator %s on %s, %s' % (type(n.op).__name__, ta, tb))
@@ -220,9 +235,19 @@ def _texpr(n, env):
         (c, tc), (a, ta), (b, tb) = _texpr(n.test, env), _texpr(n.body, env), _texpr(n.orelse, env)
         need(tc == 'bool' and ta == tb, 'kernel: conditional expression types %s / %s / %s' % (tc, ta, tb))
         return ('(if %s then %s else %s)' % (c, a, b), ta)
+    if isinstance(n, ast.Compare) and len(n.ops) > 1:
+        # a < b < c  ==  a < b and b < c  (the operands here are names and constants: evaluating b twice is the same)
+        terms = [n.left] + list(n.comparators)
+        need(all(isinstance(t, (ast.Name, ast.Constant)) for t in terms), 'kernel: chained comparison over compound operands %s' % key[:80])
+        parts = [_texpr(ast.Compare(left=terms[i], ops=[n.ops[i]], comparators=[terms[i + 1]]), env) for i in range(len(n.ops))]
+        return ('(' + ' && '.join(e for e, _ in parts) + ')', 'bool')
     if isinstance(n, ast.Compare):
-        need(len(n.ops) == 1, 'kernel: chained comparison %s' % key[:80])
         op, rhs = n.ops[0], n.comparators[0]
+        if isinstance(op, (ast.Is, ast.IsNot)):
+            a, ta = _texpr(n.left, env)
+            need(ta == 'bool' and isinstance(rhs, ast.Constant) and isinstance(rhs.value, bool), 'kernel: `is` other than <bool> is True/False: %s' % key[:80])
+            r = '(Bool.eqb %s %s)' % (a, 'true' if rhs.value else 'false')
+            return (r if isinstance(op, ast.Is) else '(negb %s)' % r, 'bool')
         if isinstance(op, (ast.In, ast.NotIn)):
             a, ta = _texpr(n.left, env)
             ls = _lits(rhs) if isinstance(rhs, (ast.Tuple, ast.List)) else None
@@ -265,6 +290,27 @@ def _texpr(n, env):
         need(tl == 'list Z' and ti == 'Z', 'kernel: subscript of %s by %s' % (tl, ti))
         return ('(src_znth %s %s)' % (l, i), 'Z')
     need(False, 'kernel: expression %s' % ast.dump(n)[:120])
+
+
+def _norm_stmts(stmts):
+    """x.append(e) -> x += [e];  a = b = e -> b = e; a = b   (recursively through if-blocks)"""
+    out = []
+    for st in stmts:
+        if isinstance(st, ast.Expr) and isinstance(st.value, ast.Call) and isinstance(st.value.func, ast.Attribute) and st.value.func.attr == 'append' \
+                and isinstance(st.value.func.value, ast.Name) and len(st.value.args) == 1 and not st.value.keywords:
+            out.append(ast.AugAssign(target=ast.Name(id=st.value.func.value.id, ctx=ast.Store()), op=ast.Add(), value=ast.List(elts=[st.value.args[0]], ctx=ast.Load())))
+        elif isinstance(st, ast.Assign) and len(st.targets) > 1 and all(isinstance(t, ast.Name) for t in st.targets):
+            last = st.targets[-1]
+            out.append(ast.Assign(targets=[last], value=st.value))
+            for t in st.targets[:-1]:
+                out.append(ast.Assign(targets=[t], value=ast.Name(id=last.id, ctx=ast.Load())))
+        elif isinstance(st, ast.If):
+            out.append(ast.If(test=st.test, body=_norm_stmts(st.body), orelse=_norm_stmts(st.orelse)))
+        elif isinstance(st, ast.Expr) and isinstance(st.value, ast.Constant) and isinstance(st.value.value, str):
+            pass    # docstring / bare string
+        else:
+            out.append(st)
+    return out
 
 
 def _assigned(stmts):
@@ -323,7 +369,9 @@ def _tblock(stmts, env, result):
             return ('(if %s then %s else %s)' % (c, a, b), ta)
         names = _assigned([st])
         need(names is not None and names, 'kernel: if-block with statements other than assignments')
-        need(all(nm in env for nm in names), 'kernel: variable first assigned inside an if: %r' % (names,))
+        # a variable first assigned inside the if is local to its branch (a later use outside fails as an unknown name)
+        names = [nm for nm in names if nm in env]
+        need(names, 'kernel: if-block that changes no variable of the enclosing block')
         tys = [env[nm][1] for nm in names]
         tup = lambda e: (e[names[0]][0] if len(names) == 1 else '(' + ', '.join(e[nm][0] for nm in names) + ')', '*'.join(tys))
 
@@ -353,7 +401,7 @@ def kernel(name, params, stmts, inputs=None, result=None):
         res = lambda e: e[result]
     else:
         res = lambda e: ('(' + ', '.join(e[r][0] for r in result) + ')', ' * '.join(e[r][1] for r in result))
-    body, ty = _tblock(list(stmts), env, res)
+    body, ty = _tblock(_norm_stmts(list(stmts)), env, res)
     args = ' '.join('(%s : %s)' % (p, t) for p, t in params)
     return 'Definition %s %s : %s := %s.' % (name, args, ty.replace('*', ' * ') if '*' in ty and ' * ' not in ty else ty, body)
 
@@ -765,6 +813,22 @@ def main(out_path):
         need(len(stores) == 1 and ast.unparse(stores[0]) == 'self._table[i] = crc', 'SSH1_CRC32.__init__: table store')
         w(kernel('src_crc_bit_step', [('crc', 'Z'), ('n', 'Z')], steps, result=('crc', 'n')))
     soft('CRC-32 byte step and table-building bit step (SSH1_CRC32)', ['C10'], ex_crc)
+
+    def ex_hostkey_notes():
+        # HostKeyTest.perform_test(): the block `if hostkey_modulus_size > 0 or ca_modulus_size > 0:` appends to key_fail_comments / key_warn_comments, which start empty for each probed type
+        inits = [ast.unparse(n) for n in ast.walk(pt) if isinstance(n, ast.Assign) and isinstance(n.targets[0], ast.Name) and n.targets[0].id in ('key_fail_comments', 'key_warn_comments')]
+        need(sorted(inits) == ['key_fail_comments = []', 'key_warn_comments = []'], 'perform_test: comment lists initialised once, empty: %r' % (inits,))
+        blocks = [n for n in ast.walk(pt) if isinstance(n, ast.If) and ast.unparse(n.test) == 'hostkey_modulus_size > 0 or ca_modulus_size > 0']
+        need(len(blocks) == 1 and not blocks[0].orelse, 'perform_test: the size rating block')
+        # nothing else appends to the two lists
+        apps = [n for n in ast.walk(pt) if isinstance(n, ast.Call) and isinstance(n.func, ast.Attribute) and n.func.attr in ('append', 'extend', 'insert') and isinstance(n.func.value, ast.Name) and n.func.value.id in ('key_fail_comments', 'key_warn_comments')]
+        inside = [n for n in ast.walk(blocks[0]) if isinstance(n, ast.Call)]
+        need(all(any(a is b for b in inside) for a in apps), 'perform_test: the comment lists are changed outside the size rating block')
+        inputs = {'HostKeyTest.TWO2K_MODULUS_WARNING': ('hk_two2k_warning', 'string'), 'HostKeyTest.SMALL_ECC_MODULUS_WARNING': ('hk_small_ecc_warning', 'string'),
+                  'key_fail_comments': ('(@nil string)', 'list string'), 'key_warn_comments': ('(@nil string)', 'list string')}
+        w(kernel('src_hostkey_notes', [('host_key_type', 'string'), ('cert', 'bool'), ('hostkey_modulus_size', 'Z'), ('ca_key_type', 'string'), ('ca_modulus_size', 'Z')],
+                 [blocks[0]], inputs=inputs, result=('key_fail_comments', 'key_warn_comments')))
+    soft('host-key and CA size rating (HostKeyTest.perform_test)', ['C11'], ex_hostkey_notes)
 
     globals()['LAST_SOFT_FAILURES'] = soft_failures
 
